@@ -2370,6 +2370,22 @@ def escape_coverage_rule(syn, prop, rule="C04.R10"):
     txt = S.squash(json.dumps([{k: v for k, v in e.items() if k != "ctx"} for e in fn["events"]]))
     mfirst = re.search(r"text\.replace\('(\\\\\\\\|[^'])'", txt)
     r.inst(fn=fn["qual"], characters_replaced=[repr(c) for c in reps], missing=[repr(c) for c in missing])
+    # sibling: escaped_name() repeats the replacements at run time for names that are not literals
+    en = syn.fn("utils::escaped_name", "utils.rs") or syn.fn("escaped_name", "utils.rs")
+    rt = []
+    for e in (templates(en) if en else []):
+        fl = [t for t in S.flat(e["tokens"]) if isinstance(t, str)]
+        for i in range(len(fl) - 3):
+            if fl[i] == "replace" and fl[i + 1] == "(" and re.match(r"^'(\\?.)'$", fl[i + 2]):
+                ch = re.match(r"^'(\\?.)'$", fl[i + 2]).group(1)
+                rt.append({"\\\\": "\\", "\\\"": '"', "\\n": "\n", "\\r": "\r", '"': '"'}.get(ch, ch))
+    if en is not None:
+        rt_missing = [c for c in need if c not in rt]
+        r.inst(fn=en["qual"], runtime_replacements=[repr(c) for c in rt], missing=[repr(c) for c in rt_missing])
+        if rt_missing and rt:
+            r.fail(prop, "escape-incomplete utils::escaped_name(runtime) %s" % ",".join(repr(c).strip("'") for c in rt_missing),
+                   "the run-time twin of escape_string (for `rename = EXPR` that is not a literal) leaves %s as it is: `const N: &str = \"a\\nb\"; #[ts(rename = N)]` puts a raw line break inside a quoted name" % ", ".join(repr(c) for c in rt_missing),
+                   en["file"], en["line"])
     if missing:
         r.fail(prop, "escape-incomplete utils::escape_string %s" % ",".join(repr(c).strip("'") for c in missing),
                "escape_string leaves %s as it is: `#[ts(rename = \"a\\nb\")]` (or a tag / variant name with a line break) puts a raw line break inside a double-quoted TypeScript string" % ", ".join(repr(c) for c in missing),
